@@ -2,10 +2,10 @@ package main
 
 import (
 	"fmt"
-	"sync/atomic"
 	"go/types"
 	"regexp"
 	"strings"
+	"sync/atomic"
 
 	"golang.org/x/tools/go/ssa"
 )
@@ -334,7 +334,9 @@ func (e *Exec) call(s *State, f *Frame, x *ssa.Call) ([]*State, bool) {
 		}
 		panic("missing intrinsic " + name)
 	}
-	if comdex && e.regionEnabled(cl.Fn) {
+	if comdex && e.regionEnabled(cl.Fn) && len(cl.Fn.Blocks) <= 120 {
+		// (very large functions are not merged as a whole: their outcomes are too many and too different; the callees
+		// and if-diamonds inside them still are)
 		return e.callRegion(s, fn, args, x), false
 	}
 	if !e.noMerge && !e.initMode && comdex && mergeable(cl.Fn) && !e.regionEnabled(cl.Fn) && e.noRegion {
@@ -617,6 +619,31 @@ func sameVal(a, b Val) bool {
 // Declared by the harness with zzvp.Stub and listed in the evidence file.
 func (e *Exec) havocCall(s *State, f *Frame, x *ssa.Call, fn *ssa.Function, args []Val) ([]*State, bool) {
 	e.stats["stub-call:"+fn.String()]++
+	// a stub is a function: the same arguments give the same result
+	for _, r := range s.Spy {
+		if r.Name != fn.String() || len(r.Args) != len(args) {
+			continue
+		}
+		same := true
+		for i := range args {
+			if i == 1 {
+				continue // the context argument
+			}
+			if !valIdentical(r.Args[i], args[i]) {
+				same = false
+				break
+			}
+		}
+		if same {
+			s.Spy = append(s.Spy, spyRec{Name: fn.String(), Args: args, Res: r.Res})
+			if len(r.Res) == 1 {
+				top(s).Regs[x] = r.Res[0]
+			} else if len(r.Res) > 1 {
+				top(s).Regs[x] = r.Res
+			}
+			return nil, false
+		}
+	}
 	res := fn.Signature.Results()
 	vals := make(Tuple, res.Len())
 	errIdx := -1
@@ -628,6 +655,46 @@ func (e *Exec) havocCall(s *State, f *Frame, x *ssa.Call, fn *ssa.Function, args
 			continue
 		}
 		vals[i] = e.anyOf(s, t, "stub")
+	}
+	// declared monotone (zzvp.StubMonotone): against every earlier call that differs only in that argument
+	e.mu.Lock()
+	mono, isMono := e.stubMono[fn.String()]
+	e.mu.Unlock()
+	if isMono {
+		for _, r := range s.Spy {
+			if r.Name != fn.String() || len(r.Args) != len(args) || len(r.Res) != len(vals) {
+				continue
+			}
+			same := true
+			for i := range args {
+				if i == 1 || i == mono[0] {
+					continue
+				}
+				if !valIdentical(r.Args[i], args[i]) {
+					same = false
+					break
+				}
+			}
+			if !same {
+				continue
+			}
+			num := func(v Val) (string, bool) {
+				switch t := v.(type) {
+				case BigV:
+					return t.T, !t.Nil
+				case Sym:
+					return t.S, !t.Bool
+				}
+				return "", false
+			}
+			a1, ok1 := num(r.Args[mono[0]])
+			a2, ok2 := num(args[mono[0]])
+			r1, ok3 := num(r.Res[mono[1]])
+			r2, ok4 := num(vals[mono[1]])
+			if ok1 && ok2 && ok3 && ok4 {
+				s.PC = append(s.PC, "(=> (<= "+a1+" "+a2+") (<= "+r1+" "+r2+"))", "(=> (<= "+a2+" "+a1+") (<= "+r2+" "+r1+"))")
+			}
+		}
 	}
 	set := func(st *State, v Tuple) {
 		st.Spy = append(st.Spy, spyRec{Name: fn.String(), Args: args, Res: v})
